@@ -182,20 +182,42 @@ pub fn family(tier: Tier) -> Vec<TrainCfg> {
         }
     }
     // empty feature cells under bare-capture templates: the expansion is the empty string, which is
-    // a legal feature string of its own
-    {
-        let seed = vec![("a", "N,"), ("b", "V,y"), ("ab", ",z"), ("c", "P,"), ("bc", "V,")];
-        let uni = ["%F[1]", "U:%F[0]"];
-        let bi = [("%L[1]", "%R[0]"), ("B:%L[0]", "B:%R?[1]")];
-        let corpus = "a\tN,\nc\tP,\nEOS\nab\t,z\nb\tV,y\nEOS\nbc\tV,\na\tN,\nEOS\n";
-        let users: Vec<Vec<&str>> = vec![vec![], vec!["ca,0,0,0,N,\nbb,0,0,0,,z\n"], vec!["cc,0,0,0,,\n", "ca,1,2,5,N,\n"]];
+    // a legal feature string of its own; and feature values starting with '#' (e.g. the Penn
+    // Treebank tag '#'), which a bare template copies to the start of a bigram.cost line
+    for (fname, seed, uni, bi, corpus, users) in [
+        (
+            "emptycell",
+            vec![("a", "N,"), ("b", "V,y"), ("ab", ",z"), ("c", "P,"), ("bc", "V,")],
+            ["%F[1]", "U:%F[0]"],
+            [("%L[1]", "%R[0]"), ("B:%L[0]", "B:%R?[1]")],
+            "a\tN,\nc\tP,\nEOS\nab\t,z\nb\tV,y\nEOS\nbc\tV,\na\tN,\nEOS\n",
+            vec![vec![], vec!["ca,0,0,0,N,\nbb,0,0,0,,z\n"], vec!["cc,0,0,0,,\n", "ca,1,2,5,N,\n"]],
+        ),
+        (
+            "hashcell",
+            vec![("a", "#,x"), ("b", "V,y"), ("ab", "#N,z"), ("c", "P,#"), ("bc", "V,x")],
+            ["%F[1]", "U:%F[0]"],
+            [("%L[0]", "%R[0]"), ("B:%L[1]", "%R?[1]")],
+            "a\t#,x\nc\tP,#\nEOS\nab\t#N,z\nb\tV,y\nEOS\nbc\tV,x\na\t#,x\nEOS\n",
+            vec![vec![], vec!["ca,0,0,0,#,x\nbb,0,0,0,V,#\n"], vec!["cc,0,0,0,#,#\n", "ca,1,2,5,#,x\n"]],
+        ),
+        (
+            // feature values containing the '/' that separates the two sides of a bigram.cost line
+            "slashcell",
+            vec![("a", "N/A,x"), ("b", "V,y"), ("ab", "N,z/w"), ("c", "P/Q,x"), ("bc", "V,x")],
+            ["%F[1]", "U:%F[0]"],
+            [("%L[0]", "%R[0]"), ("B:%L[1]", "%R?[1]")],
+            "a\tN/A,x\nc\tP/Q,x\nEOS\nab\tN,z/w\nb\tV,y\nEOS\nbc\tV,x\na\tN/A,x\nEOS\n",
+            vec![vec![], vec!["ca,0,0,0,N/A,x\nbb,0,0,0,V,z/w\n"], vec!["cc,0,0,0,P/Q,z/w\n", "ca,1,2,5,N/A,x\n"]],
+        ),
+    ] {
         for tmask in 1u32..16 {
             let unigram: Vec<String> = (0..2).filter(|i| tmask & (1 << i) != 0).map(|i| uni[i].to_string()).collect();
             let bigram: Vec<(String, String)> = (0..2).filter(|i| tmask & (4 << i) != 0).map(|i| (bi[i].0.to_string(), bi[i].1.to_string())).collect();
             for (ri, rw) in rewrites.iter().enumerate().take(2) {
                 for (usi, us) in users.iter().enumerate() {
                     out.push(TrainCfg {
-                        name: format!("emptycell/unk1/chardef0/templates{tmask:04b}/rewrite{ri}/corpus-e/user{usi}"),
+                        name: format!("{fname}/unk1/chardef0/templates{tmask:04b}/rewrite{ri}/corpus-e/user{usi}"),
                         seed: seed.iter().map(|(a, b)| (a.to_string(), b.to_string())).collect(),
                         unk: unks[0].1.iter().map(|(a, b)| (a.to_string(), b.to_string())).collect(),
                         cats: vec!["DEFAULT".into(), "SPACE".into(), "AL".into(), "KJ".into()],
@@ -839,6 +861,19 @@ pub fn check_c16_ordered(cfg: &TrainCfg, m: &mut Model, kf: &[KnownFinding], st:
         let bd = match built {
             Ok(Ok(d)) => d,
             other => {
+                // K9: a bigram feature string containing '/' makes its bigram.cost lines
+                // ("left/right<TAB>cost", no escaping) unreadable: the compiler rejects the file
+                let msg = match &other {
+                    Ok(Err(e)) => e.to_string(),
+                    _ => String::new(),
+                };
+                let slash_feature = m.verif_feature_ids(Kind::Left).iter().chain(m.verif_feature_ids(Kind::Right).iter()).any(|(s, _)| s.contains('/'));
+                let offending_line_has_two_slashes = msg.contains("The format must be right/left<tab>cost") && msg.rsplit(", ").next().map_or(false, |l| l.split('\t').next().unwrap_or("").matches('/').count() >= 2);
+                if slash_feature && offending_line_has_two_slashes && is_open(kf, "C16", "K9") {
+                    st.known("K9", "a bigram feature string containing '/' is written unescaped into bigram.cost ('left/right<TAB>cost'); the line then has several '/' and the raw/dual compiler rejects the emitted file");
+                    st.count("k9_explained");
+                    return true;
+                }
                 st.violation(Finding {
                     class: format!("bigram-dictionary-does-not-compile-{}", if dual { "dual" } else { "raw" }),
                     what: format!("the emitted bigram files do not compile ({}): {:?} [{}]", if dual { "dual" } else { "raw" }, other.map(|r| r.map(|_| ()).map_err(|e| e.to_string())), cfg.name),
@@ -1347,6 +1382,8 @@ fn outputs(m: &mut Model) -> Result<Outputs, String> {
 fn user_menu(cfg: &TrainCfg) -> [&'static str; 3] {
     if cfg.name.starts_with("emptycell") {
         ["ca,0,0,0,N,\nbb,0,0,0,,z\n", USER_MENU[1], "cc,0,0,0,,\n"]
+    } else if cfg.name.starts_with("hashcell") {
+        ["ca,0,0,0,#,x\nbb,0,0,0,V,#\n", USER_MENU[1], "cc,0,0,0,#,#\n"]
     } else {
         USER_MENU
     }
